@@ -80,22 +80,23 @@ Variable prog : program.
 Variable FT : ftab.
 Variable fcells : list (str * (N * N * list scope * option (list (str * N)))).
 Variable floc : str -> str.
-Variable fpins : pinset.
 Hypothesis Hfun0 : forall f, In f (fnames FT) -> uname0 f.
 Hypothesis Hfck : forall f, In f (fnames FT) <-> assoc f fcells <> None.
-Hypothesis Hgpv : forall f c c' cenv cbf, assoc f fcells = Some (c, c', cenv, cbf) -> vpin fpins c' (VFun (floc f) cbf).
-Hypothesis Hgps : forall f c c' cenv cbf ps body, assoc f fcells = Some (c, c', cenv, cbf) -> assoc f FT = Some (ps, body) ->
-  spin fpins c (RClos ps body cenv).
 Variable cbf : option (list (str * N)).     (* the callee's captured cells *)
 Variable selfv : option rvalue.
 Variable name : str.
+(* the data variables the callee captures (name -> source cell) *)
+Variable cdsc : scope.
+
+Section Entry.
+Variable fpins : pinset.
 
 Section Params.
 Variable base : list frame.                     (* the caller's frames *)
 Variable code : list instr.
 Hypothesis Hsmall : small (1 + 2 * length code + 8).
 
-Local Notation RstC := (Rst base FT [] fcells cbf selfv name fpins).
+Local Notation RstC := (Rst base FT [] fcells cbf selfv name fpins cdsc []).
 Local Notation boundC := (bound_in FT []).
 
 (* binding the parameters: `arg k; store p` for each p, vs bind_params *)
@@ -144,7 +145,7 @@ Proof.
     destruct (declare env s p v) as [env1 s1] eqn:Edec.
     assert (Eas : assign env s p v = (env1, s1)) by (unfold assign; rewrite Hpn0; exact Edec).
     set (i2 := mkI OP_STORE [p]) in *.
-    destruct (store_rel base FT [] fcells cbf Hfck selfv name fpins env s (trc name a1 g1 i2) p v env1 s1
+    destruct (store_rel base FT [] fcells cbf Hfck selfv name fpins cdsc [] env s (trc name a1 g1 i2) p v env1 s1
                 ltac:(apply Rg_trc; apply Rg_trc; exact HG) Hpu Hfv Eas) as (g2 & Hst & HG2 & Hd & Hbx & Htl & _).
     set (a2 := set_ip (set_ops a1 []) (S (a_ip a1))).
     assert (R2 : xrun prog name code a g a2 g2).
@@ -183,10 +184,11 @@ Lemma Rst_entry : forall argv s g1 cenv,
   out g1 = rout s -> frames_nd (frames g1) -> fvals fpins s g1 ->
   (forall f c c' ce cb', assoc f fcells = Some (c, c', ce, cb') ->
      lookup_scopes f cenv = Some c /\ exists m, cbf = Some m /\ assoc f m = Some c') ->
-  Rst (frames g1) FT [] fcells cbf selfv name fpins (call_pins s g1)
+  (forall x c, assoc x cdsc = Some c -> lookup_scopes x cenv = Some c) ->
+  Rst (frames g1) FT [] fcells cbf selfv name fpins cdsc [] (call_pins s g1)
       {| locals := [[]]; captured := cenv; cur := selfv |} s (act0 name argv cbf) (push_frame g1 (LFun name)).
 Proof.
-  intros argv s g1 cenv _ Ho Hnd [Fv Fs] Hent. split; [|split; [reflexivity|cbn; lia]].
+  intros argv s g1 cenv _ Ho Hnd [Fv Fs] Hent Hcap. split; [|split; [reflexivity|cbn; lia]].
   assert (Hnp : forall c0 c0', ~ StmtRel.pairs (fnames FT) [[]] [{| lab := LFun name; vars := [] |}] c0 c0').
   { intros c0 c0' Hp. cbn in Hp. destruct Hp as [(x & _ & E & _)|[]]. discriminate. }
   constructor; cbn [locals captured cur store rout cells frames out push_frame with_frames length skipn]; try reflexivity; try assumption.
@@ -204,40 +206,94 @@ Proof.
   - intros f c0 c0' ce cb' E k Hk. cbn [length] in Hk. assert (k = 0) by lia. subst k. cbn [skipn app lookup_scopes assoc].
     destruct (Hent f c0 c0' ce cb' E) as (H1 & m & -> & H2). split; [exact H1|].
     unfold lookup_fs. cbn [find_in_function vars assoc lab special]. exact H2.
+  - intros x c0 c0' [].
 Qed.
 
-Lemma keep_of_Rg : forall base sv s g1 env' s' g', Rg base FT [] fcells cbf sv name fpins (call_pins s g1) env' s' g' ->
+Lemma keep_of_Rg : forall base sv s g1 env' s' g', Rg base FT [] fcells cbf sv name fpins cdsc [] (call_pins s g1) env' s' g' ->
   (forall c0 v, sget s c0 = Some v -> sget s' c0 = Some v) /\ (forall c0 w, cell_get g1 c0 = Some w -> cell_get g' c0 = Some w).
 Proof.
-  intros base sv s g1 env' s' g' HG. destruct (Rg_pins _ _ _ _ _ _ _ _ _ _ _ HG) as [H1 H2]. split.
+  intros base sv s g1 env' s' g' HG. destruct (Rg_pins _ _ _ _ _ _ _ _ _ _ _ _ _ HG) as [H1 H2]. split.
   - intros c0 v Hv. exact (proj1 (H2 c0 v Hv)).
   - intros c0 w Hw. exact (proj1 (H1 c0 w Hw)).
 Qed.
 
+End Entry.
+
+(* the static pins of an activation: the function cells (fpins) and the captured data cells the activation and the
+   functions it calls need, at their values at entry (nothing writes them while the activation runs) *)
+Definition dpins (fpins : pinset) (dn : list (N * N)) (s : rstate) (g : gstate) : pinset :=
+  {| vpin := fun c' w => vpin fpins c' w \/
+                         exists c v, In (c, c') dn /\ first_order v /\ sget s c = Some v /\ cell_get g c' = Some w /\ w = inj v;
+     spin := fun c v => spin fpins c v \/
+                        exists c', In (c, c') dn /\ first_order v /\ sget s c = Some v /\ cell_get g c' = Some (inj v) |}.
+
+Lemma callee_ok_pins : forall (P P' : pinset) fuel ps body cenv loc cb0 dn0,
+  (forall cy w, vpin P cy w -> vpin P' cy w) -> (forall c v, spin P c v -> spin P' c v) ->
+  callee_ok P prog fuel ps body cenv loc cb0 dn0 -> callee_ok P' prog fuel ps body cenv loc cb0 dn0.
+Proof.
+  intros P P' fuel ps body cenv loc cb0 dn0 Hv Hs H vs s g1 Hfo Hlen Ho Hnd Hfv Hdr.
+  apply H; try assumption. destruct Hfv as [F1 F2]. split; intros; auto.
+Qed.
+
+Variable fpins : pinset.
+Hypothesis Hgpv : forall f c c' cenv cbf, assoc f fcells = Some (c, c', cenv, cbf) -> vpin fpins c' (VFun (floc f) cbf).
+Hypothesis Hgps : forall f c c' cenv cbf ps body, assoc f fcells = Some (c, c', cenv, cbf) -> assoc f FT = Some (ps, body) ->
+  spin fpins c (RClos ps body cenv).
+(* the data cell pairs the callee needs related at entry: its own captured data, and what the functions it calls need *)
+Variable dn : list (N * N).
+Variable fdn : str -> list (N * N).
+Hypothesis Hcdn : forall x c, assoc x cdsc = Some c ->
+  uname (fnames FT) x /\ exists c' m, cbf = Some m /\ assoc x m = Some c' /\ In (c, c') dn.
+Hypothesis Hfdn : forall f p, In f (fnames FT) -> In p (fdn f) -> In p dn.
+
 (* ================================================================ a call of a function that may call the functions of FT
-   (through its captured cells) and itself (`self`) *)
+   (through its captured cells) and itself (`self`), and read the data variables it captured *)
 Theorem fun_sim : forall ps body cenv tail,
   selfv = Some (RClos ps body cenv) ->
   let fcode := pcodeP 0 ps ++ strip (bitems 1 0 None body) ++ tail in
   assoc name prog = Some fcode ->
   (tail = [mkI OP_VOID []; mkI OP_RET []] \/ (tail = [] /\ ends_ret body = true)) ->
   NoDup ps -> forallb src_nameb ps = true -> (forall x, In x ps -> ~ In x (fnames FT)) ->
-  ok_block FT (Some ps) false (rev ps) body = true ->
+  ok_block FT (Some ps) (map fst cdsc) false (rev ps) body = true ->
   small (1 + 2 * length fcode + 8) ->
   (forall f c c' ce cb', assoc f fcells = Some (c, c', ce, cb') ->
      lookup_scopes f cenv = Some c /\ exists m, cbf = Some m /\ assoc f m = Some c') ->
+  (forall x c, assoc x cdsc = Some c -> lookup_scopes x cenv = Some c) ->
   forall fuel,
-  (forall fuel', fuel' < fuel -> call_ok FT fcells floc fpins prog fuel') ->
-  (forall fuel', fuel' < fuel -> callee_ok fpins prog fuel' ps body cenv name cbf) ->
-  callee_ok fpins prog fuel ps body cenv name cbf.
+  (forall fuel', fuel' < fuel -> call_ok FT fcells floc fpins fdn prog fuel') ->
+  (forall fuel', fuel' < fuel -> callee_ok fpins prog fuel' ps body cenv name cbf dn) ->
+  callee_ok fpins prog fuel ps body cenv name cbf dn.
 Proof.
-  intros ps body cenv tail Eself fcode Hcode Htail Hnd Hsrc Hpnf Hok Hsm Hent fuel Hcall Hslf vs s g1 Hfo Hlen Ho Hnd1 Hfv.
+  intros ps body cenv tail Eself fcode Hcode Htail Hnd Hsrc Hpnf Hok Hsm Hent Hcap fuel Hcall Hslf vs s g1 Hfo Hlen Ho Hnd1 Hfv0 Hdr.
   unfold call_clos_.
   set (fv := RClos ps body cenv) in *.
   set (pinsC := call_pins s g1).
+  set (fpC := dpins fpins dn s g1).
+  assert (Hfv : fvals fpC s g1).
+  { destruct Hfv0 as [Fv Fs]. split.
+    - intros cy w [Hq|(c0 & v & _ & _ & _ & Hc & _)]; [exact (Fv _ _ Hq)|exact Hc].
+    - intros c0 v [Hq|(c' & _ & _ & Hs & _)]; [exact (Fs _ _ Hq)|exact Hs]. }
+  assert (HgpvC : forall f c c' cenv cbf, assoc f fcells = Some (c, c', cenv, cbf) -> vpin fpC c' (VFun (floc f) cbf))
+    by (intros; left; eapply Hgpv; eassumption).
+  assert (HgpsC : forall f c c' cenv cbf ps body, assoc f fcells = Some (c, c', cenv, cbf) -> assoc f FT = Some (ps, body) ->
+                  spin fpC c (RClos ps body cenv)) by (intros; left; eapply Hgps; eassumption).
+  assert (HcdC : forall x c, assoc x cdsc = Some c -> uname (fnames FT) x /\
+            exists c' v m, cbf = Some m /\ assoc x m = Some c' /\ first_order v /\ spin fpC c v /\ vpin fpC c' (inj v)).
+  { intros x c0 E. destruct (Hcdn x c0 E) as (Hx & c' & m & Em & Ea & Hin). destruct (Hdr c0 c' Hin) as (v & Hfov & Hs & Hc).
+    split; [exact Hx|]. exists c', v, m. split; [exact Em|]. split; [exact Ea|]. split; [exact Hfov|].
+    split; [right; exists c'; auto|right; exists c0, v; auto]. }
+  assert (HpinC : forall p, In p dn -> dpair_ok fpC [] p).
+  { intros [c0 c0'] Hin. right. destruct (Hdr c0 c0' Hin) as (v & Hfov & Hs & Hc). exists v. cbn [fst snd].
+    split; [exact Hfov|]. split; [right; exists c0'; auto|right; exists c0, v; auto]. }
+  assert (HcallC : forall fuel', fuel' < fuel -> call_ok FT fcells floc fpC fdn prog fuel').
+  { intros fuel' Hlt f ps0 body0 c0 c0' cenv0 cbf0 Eft Efc.
+    eapply (callee_ok_pins fpins fpC); [intros; left; assumption|intros; left; assumption|].
+    exact (Hcall fuel' Hlt f ps0 body0 c0 c0' cenv0 cbf0 Eft Efc). }
+  assert (HslfC : forall fuel', fuel' < fuel -> callee_ok fpC prog fuel' ps body cenv name cbf dn).
+  { intros fuel' Hlt. eapply (callee_ok_pins fpins fpC); [intros; left; assumption|intros; left; assumption|exact (Hslf fuel' Hlt)]. }
   set (env0 := {| locals := [[]]; captured := cenv; cur := Some fv |}).
   set (a0 := act0 name (map inj vs) cbf). set (gP := push_frame g1 (LFun name)).
-  pose proof (Rst_entry (map inj vs) s g1 cenv ltac:(rewrite Eself; discriminate) Ho Hnd1 Hfv Hent) as HR0.
+  pose proof (Rst_entry fpC (map inj vs) s g1 cenv ltac:(rewrite Eself; discriminate) Ho Hnd1 Hfv Hent Hcap) as HR0.
   rewrite Eself in HR0. fold pinsC env0 a0 gP in HR0.
   assert (Hlenc : length fcode = 2 * length ps + length (strip (bitems 1 0 None body)) + length tail).
   { unfold fcode. rewrite !app_length, pcodeP_length. lia. }
@@ -246,12 +302,12 @@ Proof.
   assert (Hprm : match bind_params ps vs s [] with
                  | Some (sc, s') => exists a' g' env',
                      xrun prog name fcode a0 gP a' g' /\ a_ip a' = 2 * length ps /\
-                     Rst (frames g1) FT [] fcells cbf (Some fv) name fpins pinsC env' s' a' g' /\
+                     Rst (frames g1) FT [] fcells cbf (Some fv) name fpC cdsc [] pinsC env' s' a' g' /\
                      locals env' = [sc] /\ captured env' = cenv /\ cur env' = Some fv /\
                      bound_in FT [] (rev ps) env' /\ act_same a0 a'
                  | None => False end).
   { rewrite <- Eself.
-    pose proof (params_run (frames g1) fcode ps vs 0 [] [] pinsC a0 gP env0 s vs
+    pose proof (params_run fpC (frames g1) fcode ps vs 0 [] [] pinsC a0 gP env0 s vs
                     ltac:(intros j i Hj; unfold fcode; cbn [Nat.mul Nat.add]; rewrite nth_error_app1; [exact Hj|apply nth_error_Some; congruence])
                     eq_refl eq_refl ltac:(intros j v Hj; exact Hj) ltac:(rewrite Eself; exact HR0) eq_refl
                     ltac:(split; [intros x _; cbn; split; [congruence|intros [[]|[]]]|intros x []])
@@ -268,14 +324,16 @@ Proof.
   subst env1.
   (* the body *)
   pose proof (cblock_correct (frames g1) FT [] fcells floc cbf (HL0 FT) Hfun0 Hfck (Some ps) (Some fv) name
-                ltac:(intros ps0 E; inversion E; subst ps0; exists body, cenv; reflexivity) fpins Hgpv Hgps
+                ltac:(intros ps0 E; inversion E; subst ps0; exists body, cenv; reflexivity) fpC HgpvC HgpsC
+                cdsc HcdC [] ltac:(intros x cc []) fdn dn
+                ltac:(intros f p0 Hf Hp0; exact (HpinC p0 (Hfdn f p0 Hf Hp0))) HpinC
                 [] body (rev ps) Hok 1
                 {| fid := 0; lreg := 0; fbuf := [] |} pinsC prog name (pcodeP 0 ps) tail a1 gq {| locals := [sc]; captured := cenv; cur := Some fv |} s1 fuel) as H.
-  cbv zeta in H. rewrite (cblockT_ok [] 1 body FT (Some ps) false (rev ps) None _ Hok) in H. cbn [fst lreg] in H. fold fcode in H.
+  cbv zeta in H. rewrite (cblockT_ok [] 1 body FT (Some ps) (map fst cdsc) false (rev ps) None _ Hok) in H. cbn [fst lreg] in H. fold fcode in H.
   rewrite pcodeP_length in H.
   specialize (H ltac:(destruct Htail as [->|[-> He]]; [left; discriminate|right; exact He]) Hsm (Nat.le_0_l _) Hip1
-                ltac:(rewrite (proj2 (proj2 Ha1)); reflexivity) HR1 Hb1 Hcall
-                ltac:(intros fuel' Hlt ps0 body0 cenv0 E; inversion E; subst ps0 body0 cenv0; exact (Hslf fuel' Hlt))).
+                ltac:(rewrite (proj2 (proj2 Ha1)); reflexivity) HR1 Hb1 HcallC
+                ltac:(intros fuel' Hlt ps0 body0 cenv0 E; inversion E; subst ps0 body0 cenv0; exact (HslfC fuel' Hlt))).
   destruct (exec_block fuel {| locals := [sc]; captured := cenv; cur := Some fv |} body s1) as [sig env2 s2|fl s2|];
     [| |exact Logic.I].
   2:{ (* the body fails *)
@@ -287,13 +345,13 @@ Proof.
     destruct H as (a2 & g2 & R2 & Hip2 & (HG2 & Hops2 & Hss2) & Ha2 & Hd2 & _ & _).
     pose proof (same_tl_length {| locals := [sc]; captured := cenv; cur := Some fv |} env2 ltac:(cbn; discriminate) Hd2) as Hl2.
     cbn [locals length] in Hl2.
-    pose proof (Rg_base _ _ _ _ _ _ _ _ _ _ _ HG2) as Hbase. rewrite Hl2 in Hbase.
-    destruct (keep_of_Rg _ _ _ _ _ _ _ HG2) as [Ks Kc].
-    destruct (frames g2) as [|f2 fs2] eqn:Ef2; [exfalso; exact (proj2 (Rfr_ne _ _ _ _ (Rg_fr _ _ _ _ _ _ _ _ _ _ _ HG2)) Ef2)|].
+    pose proof (Rg_base _ _ _ _ _ _ _ _ _ _ _ _ _ HG2) as Hbase. rewrite Hl2 in Hbase.
+    destruct (keep_of_Rg _ _ _ _ _ _ _ _ HG2) as [Ks Kc].
+    destruct (frames g2) as [|f2 fs2] eqn:Ef2; [exfalso; exact (proj2 (Rfr_ne _ _ _ _ (Rg_fr _ _ _ _ _ _ _ _ _ _ _ _ _ HG2)) Ef2)|].
     cbn [skipn] in Hbase. subst fs2.
-    pose proof (Rg_drop _ _ _ _ _ _ _ _ _ _ _ HG2) as Hdrop. rewrite Ef2 in Hdrop.
+    pose proof (Rg_drop _ _ _ _ _ _ _ _ _ _ _ _ _ HG2) as Hdrop. rewrite Ef2 in Hdrop.
     assert (Hkeep : forall gf, frames gf = frames g1 -> out gf = out g2 -> cells gf = cells g2 -> val_keep s s2 g1 gf).
-    { intros gf F1 F2 F3. split; [exact F1|]. split; [rewrite F2; exact (Rg_out _ _ _ _ _ _ _ _ _ _ _ HG2)|]. split; [exact Ks|].
+    { intros gf F1 F2 F3. split; [exact F1|]. split; [rewrite F2; exact (Rg_out _ _ _ _ _ _ _ _ _ _ _ _ _ HG2)|]. split; [exact Ks|].
       intros c0 w Hw. unfold cell_get. rewrite F3. exact (Kc c0 w Hw). }
     destruct Htail as [->|[-> Her]].
     + (* void; ret *)
@@ -323,8 +381,8 @@ Proof.
       exists fuel'. eexists. split; [exact Hrun|]. apply Hkeep; reflexivity.
   - (* return v *)
     destruct H as (env3 & a2 & g2 & R2 & Hi2 & Hops2 & Hfov & HG2 & Ha2). split; [exact Hfov|].
-    destruct (keep_of_Rg _ _ _ _ _ _ _ HG2) as [Ks Kc].
-    pose proof (Rg_drop _ _ _ _ _ _ _ _ _ _ _ HG2) as Hdrop.
+    destruct (keep_of_Rg _ _ _ _ _ _ _ _ HG2) as [Ks Kc].
+    pose proof (Rg_drop _ _ _ _ _ _ _ _ _ _ _ _ _ HG2) as Hdrop.
     assert (Hl : exists gf, (forall f0 k, loop rcT (run_fn f0 prog) name fcode (S (S (S k))) a2 g2 = RDone (Some (inj v)) gf) /\
                             frames gf = frames g1 /\ out gf = out g2 /\ cells gf = cells g2).
     { eexists. split; [intros f0 k|].
@@ -333,7 +391,7 @@ Proof.
       - cbn [with_frames frames out cells add_trace]. auto. }
     destruct Hl as (gf & Hl & F1 & F2 & F3).
     destruct (run_fn_finish prog name fcode (map inj vs) cbf g1 a2 g2 _ Hcode ltac:(eapply xrun_trans; [exact R1|exact R2]) Hl) as [fuel' Hrun].
-    exists fuel', gf. split; [exact Hrun|]. split; [exact F1|]. split; [rewrite F2; exact (Rg_out _ _ _ _ _ _ _ _ _ _ _ HG2)|]. split; [exact Ks|].
+    exists fuel', gf. split; [exact Hrun|]. split; [exact F1|]. split; [rewrite F2; exact (Rg_out _ _ _ _ _ _ _ _ _ _ _ _ _ HG2)|]. split; [exact Ks|].
     intros c0 w Hw. unfold cell_get. rewrite F3. exact (Kc c0 w Hw).
 Qed.
 End Callee.
@@ -394,10 +452,10 @@ Proof.
   destruct it; cbn [app resolve]; now rewrite IH.
 Qed.
 
-Lemma sitems_snoc : forall FT SP il B c lr sl st, ok_stmt FT SP il B st = true ->
+Lemma sitems_snoc : forall FT SP CD il B c lr sl st, ok_stmt FT SP CD il B st = true ->
   exists pre last, sitems c lr sl st = pre ++ [last] /\ (ret_item last = true -> is_ret st = true).
 Proof.
-  intros FT SP il B c lr sl st H. destruct st; try discriminate.
+  intros FT SP CD il B c lr sl st H. destruct st; try discriminate.
   - eexists. eexists. split; [cbn [sitems]; reflexivity|discriminate].
   - exists (map CI (xcode (S c) e) ++ [I OP_BIN_OP_ASSIGN [binop_sym o ++ [61%N]; x]]), (I OP_VOID []).
     split; [cbn [sitems]; now rewrite <- app_assoc|discriminate].
@@ -434,22 +492,22 @@ Proof.
 Qed.
 Lemma bitems_app : forall c lr sl l1 l2, bitems c lr sl (l1 ++ l2) = bitems c lr sl l1 ++ bitems c lr sl l2.
 Proof. induction l1 as [|x l IH]; intros l2; [reflexivity|]. cbn [app bitems]. now rewrite IH, app_assoc. Qed.
-Lemma ok_block_snoc : forall FT SP il B l st, ok_block FT SP il B (l ++ [st]) = true -> exists B', ok_stmt FT SP il B' st = true.
+Lemma ok_block_snoc : forall FT SP CD il B l st, ok_block FT SP CD il B (l ++ [st]) = true -> exists B', ok_stmt FT SP CD il B' st = true.
 Proof.
-  intros FT SP il. intros B l. revert B. induction l as [|x l IH]; intros B st H; cbn [app ok_block] in H.
+  intros FT SP CD il. intros B l. revert B. induction l as [|x l IH]; intros B st H; cbn [app ok_block] in H.
   - apply Bool.andb_true_iff in H as [H _]. eauto.
   - apply Bool.andb_true_iff in H as [_ H]. eauto.
 Qed.
 
-Lemma ends_in_ret_body : forall FT SP B c lr body, ok_block FT SP false B body = true ->
+Lemma ends_in_ret_body : forall FT SP CD B c lr body, ok_block FT SP CD false B body = true ->
   ends_in_ret (bitems c lr None body) = true -> ends_ret body = true.
 Proof.
-  intros FT SP B c lr body Hok H.
+  intros FT SP CD B c lr body Hok H.
   destruct (rev body) as [|st rl] eqn:E.
   - apply (f_equal (@rev stmt)) in E. rewrite rev_involutive in E. subst body. discriminate.
   - apply (f_equal (@rev stmt)) in E. rewrite rev_involutive in E. cbn [rev] in E. subst body.
-    rewrite ends_ret_snoc. destruct (ok_block_snoc _ _ _ _ _ _ Hok) as [B' Hst].
-    destruct (sitems_snoc FT SP false B' c lr None st Hst) as (pre & last & Es & Hl). apply Hl.
+    rewrite ends_ret_snoc. destruct (ok_block_snoc _ _ _ _ _ _ _ Hok) as [B' Hst].
+    destruct (sitems_snoc FT SP CD false B' c lr None st Hst) as (pre & last & Es & Hl). apply Hl.
     rewrite bitems_app in H. cbn [bitems] in H. rewrite app_nil_r, Es, app_assoc in H.
     unfold ends_in_ret in H. rewrite rev_app_distr in H. cbn [rev app] in H. destruct last; [exact H|discriminate|discriminate].
 Qed.
@@ -477,20 +535,36 @@ Fixpoint capmap (sc : scope) (ns : list str) : list (str * N) :=
 Definition fcb (pre : ftab) (d : fdef) : option (list (str * N)) :=
   match caps_of d with [] => None | ns => Some (capmap (dscope 0 pre) ns) end.
 
+(* the DATA variables a function captures: the captured names that are not functions of the table *)
+Definition dcaps (pre : ftab) (caps : list str) : list str := filter (fun n => negb (mem_str n (fnames pre))) caps.
+Lemma dcaps_nil : forall pre caps, forallb (fun n => mem_str n (fnames pre) || mem_str n []) caps = true -> dcaps pre caps = [].
+Proof.
+  intros pre. induction caps as [|n t IH]; intros H; [reflexivity|]. cbn [forallb] in H. apply Bool.andb_true_iff in H as [H1 H2].
+  cbn [dcaps filter mem_str] in *. rewrite Bool.orb_false_r in H1. rewrite H1. cbn [negb]. exact (IH H2).
+Qed.
+Lemma caps_funs : forall pre caps, forallb (fun n => mem_str n (fnames pre) || mem_str n []) caps = true ->
+  forallb (fun n => mem_str n (fnames pre)) caps = true.
+Proof.
+  intros pre caps H. rewrite forallb_forall in *. intros n Hn. specialize (H n Hn). cbn [mem_str] in H. now rewrite Bool.orb_false_r in H.
+Qed.
+Lemma In_dcaps : forall pre caps x, In x (dcaps pre caps) <-> In x caps /\ mem_str x (fnames pre) = false.
+Proof. intros pre caps x. unfold dcaps. rewrite filter_In. rewrite Bool.negb_true_iff. tauto. Qed.
+
 (* a function of the table: parameters distinct source names; it mentions (= captures) only earlier functions of the
-   table, calls them / itself with call-free arguments, and is otherwise in the fragment *)
-Definition fn_ok (pre : ftab) (d : fdef) : Prop :=
+   table and data variables B of the module (read by reference), calls the functions / itself, and is otherwise in
+   the fragment *)
+Definition fn_ok (pre : ftab) (B : list str) (d : fdef) : Prop :=
   let '(f, (ps, body)) := d in
   let caps := free_vars ps body in
   src_nameb f = true /\ NoDup ps /\ forallb src_nameb ps = true /\
-  forallb (fun n => mem_str n (fnames pre)) caps = true /\
+  forallb (fun n => mem_str n (fnames pre) || mem_str n B) caps = true /\
   (forall x, In x ps -> ~ In x (fnames (vis caps pre))) /\
-  ok_block (vis caps pre) (Some ps) false (rev ps) body = true /\
+  ok_block (vis caps pre) (Some ps) (dcaps pre caps) false (rev ps) body = true /\
   small (1 + 2 * length (fcode_of ps body) + 8).
 Fixpoint fns_ok (pre FT : ftab) : Prop :=
-  match FT with [] => True | d :: t => fn_ok pre d /\ fns_ok (pre ++ [d]) t end.
+  match FT with [] => True | d :: t => fn_ok pre [] d /\ fns_ok (pre ++ [d]) t end.
 
-Lemma fns_ok_nth : forall FT pre i d, fns_ok pre FT -> nth_error FT i = Some d -> fn_ok (pre ++ firstn i FT) d.
+Lemma fns_ok_nth : forall FT pre i d, fns_ok pre FT -> nth_error FT i = Some d -> fn_ok (pre ++ firstn i FT) [] d.
 Proof.
   induction FT as [|d0 t IH]; intros pre i d H Hi; [destruct i; discriminate|]. destruct H as [H0 Ht]. destruct i as [|i].
   - cbn in Hi. inversion Hi; subst d0. cbn [firstn]. now rewrite app_nil_r.
@@ -523,7 +597,7 @@ Proof.
     destruct (cblock0 path main {| fid := fi; lreg := 0; fbuf := fb |}); reflexivity.
   - destruct HF as [(Hf & Hnd & Hsrc & Hcaps & Hpn & Hok & Hsm) HF'].
     cbn [map app cblock0]. unfold def_stmt at 1. cbn [fst snd]. rewrite cstmt_SAssign, cexpr_EFn_eq.
-    rewrite (cblockT_ok path 1 body _ _ false (rev ps) None st Hok). rewrite Hlr. cbv zeta. cbv beta iota.
+    rewrite (cblockT_ok path 1 body _ _ _ false (rev ps) None st Hok). rewrite Hlr. cbv zeta. cbv beta iota.
     rewrite (IH (pre ++ [(f, (ps, body))])) by (try exact HF'; reflexivity). cbn [fid lreg fbuf].
     replace (fid st + length ((f, (ps, body)) :: t)) with (S (fid st) + length t) by (cbn [length]; lia).
     cbn [dfbuf dcode map fst]. unfold caps_of. cbn [fst snd]. unfold fcode_of. rewrite !strip_app, strip_map_CI. rewrite <- !app_assoc. cbn [app].
@@ -633,7 +707,7 @@ Proof.
   - exists env, s, a, g. rewrite app_nil_r. split; [apply xrun_refl|]. split; [exact Hinv|]. split; [apply act_same_refl|].
     right. exists fuel. reflexivity.
   - cbn [dcode] in Hc. apply code_at_cons in Hc as [Hi1 Hc]. apply code_at_cons in Hc as [Hi2 Hc]. cbn [fst] in Hi2.
-    destruct HF as [(Hf & Hndp & Hsrc & Hcaps & Hpn & Hok & Hsm) HF'].
+    destruct HF as [(Hf & Hndp & Hsrc & Hcaps & Hpn & Hok & Hsm) HF']. apply caps_funs in Hcaps.
     destruct Hinv as [Hloc Hcap Hcur Hlen Hclo Hro Hfr Hce Hou Hops Hip Hcb Hss].
     assert (Hfn : ~ In f (fnames P)).
     { unfold fnames in *. rewrite map_app in Hnd. cbn [map fst] in Hnd. apply NoDup_remove_2 in Hnd.
@@ -829,7 +903,7 @@ Qed.
 
 Lemma Rst_defs : forall path name FT env s a g,
   NoDup (fnames FT) -> dinv path name FT env s a g ->
-  Rst [] FT (fnames FT) (dfc [] FT) None None name (mpins path FT) no_pins env s a g /\ bound_in FT (fnames FT) [] env.
+  Rst [] FT (fnames FT) (dfc [] FT) None None name (mpins path FT) [] [] no_pins env s a g /\ bound_in FT (fnames FT) [] env.
 Proof.
   intros path name FT env s a g Hnd [Hloc Hcap Hcur Hlen Hclo Hro Hfr Hce Hou Hops Hip Hcb Hss].
   split; [split; [|split; [exact Hops|rewrite Hloc, Hss; cbn; lia]]|].
@@ -857,6 +931,8 @@ Proof.
       unfold lookup_fs. cbn [lookup_scopes find_in_function vars]. rewrite Ha. split; reflexivity.
     + exact Hcur.
     + reflexivity.
+    + intros x c0 E. discriminate.
+    + intros x c0 c0' [].
   - split; [|intros x []]. intros x _. rewrite Hloc. cbn [lookup_scopes]. split.
     + intros H. right. apply (assoc_dscope_in FT 0 x). destruct (assoc x (dscope 0 FT)); [congruence|exact H].
     + intros [[]|H]. apply (assoc_dscope_in FT 0 x) in H. destruct (assoc x (dscope 0 FT)); [congruence|exact H].
@@ -900,13 +976,14 @@ Hypothesis HF : fns_ok [] FT.
 Hypothesis Hprog : forall i f ps body, nth_error FT i = Some (f, (ps, body)) -> assoc (fn_name path i) prog = Some (fcode_of ps body).
 
 Lemma gcall_ok : forall n i f ps body, i < n -> nth_error FT i = Some (f, (ps, body)) -> forall fuel,
-  callee_ok (mpins path FT) prog fuel ps body [dscope 0 (firstn i FT)] (fn_name path i) (fcb (firstn i FT) (f, (ps, body))).
+  callee_ok (mpins path FT) prog fuel ps body [dscope 0 (firstn i FT)] (fn_name path i) (fcb (firstn i FT) (f, (ps, body))) [].
 Proof.
   induction n as [|n IHn]; intros i f ps body Hi Hnth; [lia|].
   destruct (Nat.eq_dec i n) as [->|Hne]; [|apply (IHn i f ps body); [lia|exact Hnth]].
   set (P := firstn n FT). set (d := (f, (ps, body)) : fdef). set (caps := free_vars ps body).
   pose proof (fns_ok_nth FT [] n d HF Hnth) as Hok. cbn [app] in Hok. fold P in Hok.
   destruct Hok as (Hf & Hndp & Hsrc & Hcaps & Hpn & Hokb & Hsm). fold caps in Hcaps, Hpn, Hokb.
+  rewrite (dcaps_nil P caps Hcaps) in Hokb. apply caps_funs in Hcaps.
   set (FTi := vis caps P) in *. set (fci := filter (fun e => mem_str (fst e) caps) (dfc [] P)).
   assert (EFT : FT = P ++ skipn n FT) by (symmetry; apply firstn_skipn).
   assert (HlenP : length P = n).
@@ -950,15 +1027,17 @@ Proof.
     unfold fcb, caps_of, d. cbn [fst snd]. fold caps. destruct caps as [|n0 ns0] eqn:Ec; [destruct Hin|].
     eexists. split; [reflexivity|]. now apply assoc_capmap. }
   intros fuel. induction fuel as [fuel IHf] using lt_wf_ind.
-  pose proof (fun_sim prog FTi fci (mfloc path FT) (mpins path FT) Hfun0i Hfcki Hgpvi Hgpsi (fcb P d)
-                (Some (RClos ps body [dscope 0 P])) (fn_name path n) ps body [dscope 0 P]
+  pose proof (fun_sim prog FTi fci (mfloc path FT) Hfun0i Hfcki (fcb P d)
+                (Some (RClos ps body [dscope 0 P])) (fn_name path n) [] (mpins path FT) Hgpvi Hgpsi [] (fun _ => [])
+                ltac:(intros x c0 E; discriminate) ltac:(intros f0 p0 _ [])
+                ps body [dscope 0 P]
                 (strip (ftail (bitems 1 0 None body))) eq_refl) as HS.
   cbv zeta in HS. fold (fcode_of ps body) in HS.
   assert (Ht : strip (ftail (bitems 1 0 None body)) = [mkI OP_VOID []; mkI OP_RET []] \/
                (strip (ftail (bitems 1 0 None body)) = [] /\ ends_ret body = true)).
   { destruct (strip_ftail (bitems 1 0 None body)) as [H|[H H']]; [now left|right]. split; [exact H|].
-    exact (ends_in_ret_body _ _ (rev ps) 1 0 body Hokb H'). }
-  apply (HS (Hprog _ _ _ _ Hnth) Ht Hndp Hsrc Hpn Hokb Hsm Hent fuel).
+    exact (ends_in_ret_body _ _ _ (rev ps) 1 0 body Hokb H'). }
+  apply (HS (Hprog _ _ _ _ Hnth) Ht Hndp Hsrc Hpn Hokb Hsm Hent ltac:(intros x c0 E; discriminate) fuel).
   - intros fuel' _ f' ps' body' c0 c0' cenv' cbf' Eft Efc.
     destruct (Hentry _ _ Efc) as (_ & j & ps2 & body2 & Hj & Hnj & _ & E3 & _ & _ & Ex & Efl).
     rewrite E3 in Eft. inversion Eft; subst ps2 body2. inversion Ex; subst c0 c0' cenv' cbf'. rewrite Efl.
@@ -966,7 +1045,7 @@ Proof.
   - intros fuel' Hlt. exact (IHf fuel' Hlt).
 Qed.
 
-Lemma call_ok_defs : forall fuel, call_ok FT (dfc [] FT) (mfloc path FT) (mpins path FT) prog fuel.
+Lemma call_ok_defs : forall fuel, call_ok FT (dfc [] FT) (mfloc path FT) (mpins path FT) (fun _ => []) prog fuel.
 Proof.
   intros fuel f ps body c0 c0' cenv cbf Eft Efc.
   destruct (dfc_assoc _ _ _ _ Efc) as (ps' & body' & H1 & H2 & H3). rewrite H2 in Eft. inversion Eft; subst ps' body'.
@@ -982,18 +1061,18 @@ Definition fmodule (FT : ftab) (main : list stmt) : source := map def_stmt FT ++
 Definition fmodule_code (FT : ftab) (main : list stmt) : list instr :=
   dcode path 0 FT ++ strip (bitems 0 0 None main) ++ [ret_mod].
 
-Lemma cprogram_fmodule : forall FT main, fns_ok [] FT -> ok_block FT None false [] main = true ->
+Lemma cprogram_fmodule : forall FT main, fns_ok [] FT -> ok_block FT None [] false [] main = true ->
   cprogram path (fmodule FT main) = dfbuf path 0 FT ++ [(s_module_fn path, fmodule_code FT main)].
 Proof.
   intros FT main HF Hok. unfold cprogram, fmodule. rewrite (cblock0_defs path FT [] main {| fid := 0; lreg := 0; fbuf := [] |} HF eq_refl). cbn [fid fbuf lreg app Nat.add].
-  rewrite cblock0_eq, (cblockT_ok path 0 main FT None false [] None _ Hok). cbn [lreg fbuf].
+  rewrite cblock0_eq, (cblockT_ok path 0 main FT None [] false [] None _ Hok). cbn [lreg fbuf].
   rewrite strip_app, strip_map_CI. unfold fmodule_code. now rewrite <- app_assoc.
 Qed.
 
 (* C01 for modules that define functions first (each may call itself through `self` and the earlier functions, which it
    captures) and then call them (in expression position) from the module's own code, at any nesting depth *)
 Theorem module_fun_correct : forall FT main,
-  fns_ok [] FT -> NoDup (fnames FT) -> ok_block FT None false [] main = true ->
+  fns_ok [] FT -> NoDup (fnames FT) -> ok_block FT None [] false [] main = true ->
   small (2 * length (fmodule_code FT main) + 8) ->
   let p := fmodule FT main in
   forall fuel, snd (run fuel p) <> ROFuel -> no_claim (snd (run fuel p)) \/
@@ -1029,9 +1108,11 @@ Proof.
   assert (Hf0 : forall f, In f (fnames FT) -> uname0 f) by (intros f; apply (fns_ok_names FT []); exact HF).
   pose proof (cblock_correct [] FT (fnames FT) (dfc [] FT) (mfloc path FT) None (fun f H => H) Hf0 (dfc_none FT [])
                 None None name ltac:(intros ps0 E; discriminate) (mpins path FT) (mpins_v path FT) (mpins_s path FT)
+                [] ltac:(intros x c0 E; discriminate) [] ltac:(intros x cc []) (fun _ => []) []
+                ltac:(intros f0 p0 _ []) ltac:(intros p0 [])
                 path main [] Hok 0 {| fid := 0; lreg := 0; fbuf := [] |} no_pins P name (dcode path 0 FT) [ret_mod]
                 a1 g1 env1 s1 fuel0) as H.
-  cbv zeta in H. rewrite (cblockT_ok path 0 main FT None false [] None _ Hok) in H. cbn [fst lreg] in H.
+  cbv zeta in H. rewrite (cblockT_ok path 0 main FT None [] false [] None _ Hok) in H. cbn [fst lreg] in H.
   fold (fmodule_code FT main) in H. fold mc in H.
   specialize (H ltac:(left; discriminate) Hsm (Nat.le_0_l _) ltac:(rewrite (di_ip _ _ _ _ _ _ _ Hd1), dcode_length; reflexivity)
                 (di_cb _ _ _ _ _ _ _ Hd1) HR HB
@@ -1042,7 +1123,7 @@ Proof.
   - destruct sig as [| | |[v|]]; try contradiction.
     2:{ destruct H as (env'' & a' & g' & Hn & Hi & Hops & Hfo & HG & Ha).
       pose proof (xrun_trans _ _ _ _ _ _ _ _ _ R1 Hn) as Hn0.
-      pose proof (Rg_drop _ _ _ _ _ _ _ _ _ _ _ HG) as Hdrop.
+      pose proof (Rg_drop _ _ _ _ _ _ _ _ _ _ _ _ _ HG) as Hdrop.
       destruct (xrun_loop _ _ _ _ _ _ _ Hn0) as (N & n & Hloop).
       set (f0 := Nat.max N (n + 1)).
       set (gf := with_frames (add_trace g' (name, N.of_nat (a_ip a'), op (mkI OP_RET []), N.of_nat (length (frames g')),
@@ -1057,14 +1138,14 @@ Proof.
         cbn [loop]. rewrite Hi. unfold Model.exec. change (decode (mkI OP_RET [])) with (DOk DRet). cbn [exec_d].
         rewrite Hops. cbn [add_trace frames]. rewrite Hdrop. reflexivity. }
       right. exists (S f0). unfold execute. fold P name. rewrite Hrun. cbn [fst snd gf with_frames frames out add_trace].
-      split; [exact (Rg_out _ _ _ _ _ _ _ _ _ _ _ HG)|exact Logic.I]. }
+      split; [exact (Rg_out _ _ _ _ _ _ _ _ _ _ _ _ _ HG)|exact Logic.I]. }
     destruct H as (a' & g' & Hn & Hip & (HG & Hops & Hss) & Ha & Hd).
     pose proof (xrun_trans _ _ _ _ _ _ _ _ _ R1 Hn) as Hn0.
     destruct Hd as (Hd & HB' & _).
     assert (Hl1 : locals env1 = [dscope 0 FT]) by exact (di_loc _ _ _ _ _ _ _ Hd1).
     pose proof (same_tl_length env1 env' ltac:(rewrite Hl1; discriminate) Hd) as Hl. rewrite Hl1 in Hl. cbn [length] in Hl.
-    pose proof (Rg_base _ _ _ _ _ _ _ _ _ _ _ HG) as Hbase. rewrite Hl in Hbase.
-    pose proof (Rg_fr _ _ _ _ _ _ _ _ _ _ _ HG) as Hfr.
+    pose proof (Rg_base _ _ _ _ _ _ _ _ _ _ _ _ _ HG) as Hbase. rewrite Hl in Hbase.
+    pose proof (Rg_fr _ _ _ _ _ _ _ _ _ _ _ _ _ HG) as Hfr.
     destruct (locals env') as [|sc [|sc' l']]; cbn [length] in Hl; try discriminate.
     destruct g' as [cs' fs' o' tr']. cbn [frames out] in *.
     destruct fs' as [|f fs]; [cbn in Hfr; contradiction|]. cbn [skipn] in Hbase. subst fs.
@@ -1085,7 +1166,7 @@ Proof.
       rewrite Hops. cbn [add_trace frames with_frames drop_to_function cells out trace]. rewrite Hsp. reflexivity. }
     destruct Hrun as [tr'' Hrun]. right.
     exists (S f0). unfold execute. fold P name. rewrite Hrun. cbn [fst snd frames out].
-    split; [exact (Rg_out _ _ _ _ _ _ _ _ _ _ _ HG)|exact Logic.I].
+    split; [exact (Rg_out _ _ _ _ _ _ _ _ _ _ _ _ _ HG)|exact Logic.I].
   - apply fail_post_inv in H. destruct H as [[->| ->]|H]; [left; left; reflexivity|left; right; reflexivity|right].
     destruct H as (e & g' & Hn & Hr & Ho).
     pose proof (xrun_fail _ _ _ _ _ _ _ _ _ R1 Hn) as Hn0.
